@@ -68,8 +68,69 @@ class Ctx:
         version = tuple(version)
         if version not in self._tc:
             f = self.folder('parso/python/tokenize.py')
-            self._tc[version] = f.function_locals('_create_token_collection', version)
+            env = f.function_locals('_create_token_collection', version)
+            self._tc[version] = self._canonical_lex(env)
         return self._tc[version]
+
+    def _canonical_lex(self, env):
+        """Add role-based entries (independent of the spelling of local variables) recovered from the
+        TokenCollection the function returns: the pseudo-token pattern is taken apart by structure and each
+        alternative is identified by what it matches."""
+        import ast as _ast
+        from . import rx
+        from .fold import Obj, Rx
+        res = env.get('$result')
+        mod = self.prog.mod('parso/python/tokenize.py')
+        cls = mod.classes.get('TokenCollection')
+        if not isinstance(res, Obj) or cls is None:
+            raise AnalysisError('_create_token_collection does not return a TokenCollection(...) the folder can follow')
+        fields = [st.target.id for st in cls.node.body
+                  if isinstance(st, _ast.AnnAssign) and isinstance(st.target, _ast.Name)]
+        vals = dict(zip(fields, res.args))
+        vals.update(res.kwargs)
+        for k in ('pseudo_token', 'endpats', 'whitespace', 'fstring_pattern_map', 'always_break_tokens'):
+            if k not in vals:
+                raise AnalysisError('TokenCollection field %s not found' % k)
+        out = dict(env)
+        pseudo = vals['pseudo_token']
+        ws = vals['whitespace']
+        if not isinstance(pseudo, Rx) or not isinstance(ws, Rx):
+            raise AnalysisError('pseudo_token / whitespace do not fold to compiled patterns')
+        out['PseudoToken'] = pseudo.source
+        out['whitespace'] = ws
+        out['Whitespace'] = ws.source
+        groups, fl = rx.top_groups(pseudo.source, pseudo.flags)
+        if len(groups) != 2:
+            raise AnalysisError('pseudo token is not (whitespace)(token)')
+        alts = rx.alternatives(groups[1])
+        probes = {'Number': '1.5e3j', 'Funny': '->', 'Name': 'abc', 'ContStr': "'a'", 'PseudoExtras': '#c'}
+        for role, probe in probes.items():
+            hit = [a for a in alts if rx.bt_match(rx.items_source(a) + r'\Z', probe) == len(probe)]
+            if len(hit) != 1:
+                raise AnalysisError('cannot identify the %s alternative of the pseudo token (%d candidates)'
+                                    % (role, len(hit)))
+            out[role] = rx.items_source(hit[0])
+            if role == 'PseudoExtras':
+                sub = [a for a in rx.alternatives(hit[0])
+                       if rx.bt_match(rx.items_source(a) + r'\Z', probe) == len(probe)]
+                if len(sub) != 1:
+                    raise AnalysisError('cannot identify the comment alternative of the pseudo token')
+                out['Comment'] = rx.items_source(sub[0])
+        endpats = vals['endpats']
+        if not isinstance(endpats, dict) or not endpats:
+            raise AnalysisError('endpats does not fold to a dict')
+        out['endpats'] = endpats
+        single, double = "'", '"'
+        out['possible_prefixes'] = {k[:-1] for k in endpats
+                                    if k[-1:] in (single, double) and not k.endswith((single * 3, double * 3))}
+        for q, role in ((single, 'Single'), (double, 'Double'), (single * 3, 'Single3'), (double * 3, 'Double3')):
+            if q not in endpats or not isinstance(endpats[q], Rx):
+                raise AnalysisError('endpats has no pattern for %r' % q)
+            out[role] = endpats[q].source
+        fmap = vals['fstring_pattern_map']
+        out['fstring_prefixes'] = {k[:-len(v)] for k, v in fmap.items()} if isinstance(fmap, dict) else set()
+        out['always_break_tokens'] = vals['always_break_tokens']
+        return out
 
     # -- CPython reference sources -------------------------------------------
     def reference_versions(self):
